@@ -1,19 +1,2 @@
-"""Texts for MANIFEST.json (level claimed per property)."""
+"""Hook commits recorded in MANIFEST.hooks.source_commits."""
 HOOK_COMMITS = []
-NOT_CLAIMED = {}
-COMMON_NOTE = ("Trusted: Lean kernel; axioms propext/Classical.choice/Quot.sound only (audited each run); the correspondence harness, "
-               "Lean driver glue and Python classifier; rustc/cargo. The theorem is about the model; the tie to the code is the "
-               "differential run on this check's generated inputs.")
-META = {
-    "C09": dict(
-        text="Proof (Lean 4): for ALL 64-bit float patterns and vectors/layer lists of any length — the single-layer comparator is "
-             "compare on an integer key (total preorder; reflexive, antisymmetric, transitive), goals of any mix of single and dominance "
-             "layers are reflexive and antisymmetric, single-layer goals equal lexicographic comparison with ±0 identified, dominance is "
-             "provably not transitive (witness), InsertionCost::cmp is the lexicographic order of zero-padded vectors (total order laws, "
-             "missing = 0), (x+y)-y = x component-wise over exact arithmetic. Tie: bit-exact differential run of the real "
-             "GoalContext::total_order / dominance_order / InsertionCost operators against the model, and the order laws + lexicographic "
-             "spec evaluated on the implementation's own comparison matrices.",
-        note=COMMON_NOTE + " Out of model: f64 rounding of +/- (law proved over Int, checked on integer-valued vectors).",
-        technique="Lean 4 theorems over UInt64 bit patterns (omega) + differential correspondence of model and real comparators",
-    ),
-}
